@@ -93,7 +93,8 @@ Definition model_ok_t (c : tcase) : bool :=
   let fire := if gated then FNone else t_fire c in
   match t_bypass c with
   | BNone =>
-      existsb (fun s => obs_matches (o_events c) (o_trace c) (o_panicked c)
+      existsb (fun s => terminal s &&      (* only maximal runs are compared *)
+                        obs_matches (o_events c) (o_trace c) (o_panicked c)
                                     (rw_log (st_rw s)) (vis (st_trace s))
                                     (match st_sel s with Some ArmPanic => true | _ => false end))
               (forced (t_recover c) (t_rh0 c) script fire)
@@ -131,12 +132,12 @@ Fixpoint until_commit (acts : list action) : list action :=
   end.
 Definition is_commit (a : action) : bool := match a with WriteHeader _ | Write _ => true | _ => false end.
 (* the part of the script that runs, and whether it ended in a panic: without the buffering writer an
-   out-of-range WriteHeader only panics while nothing is committed (afterwards net/http ignores it) *)
+   WriteHeader outside [100,999] only panics while nothing is committed (afterwards net/http ignores it) *)
 Fixpoint direct_eff (committed : bool) (acts : list action) : list action * bool :=
   match acts with
   | [] => ([], false)
   | a :: r =>
-      if match a with PanicA => true | WriteHeader c => negb committed && negb (valid_code c) | _ => false end
+      if match a with PanicA => true | WriteHeader c => negb committed && negb (valid_code_nethttp c) | _ => false end
       then ([], true)
       else let (e, p) := direct_eff (committed || is_commit a) r in (a :: e, p)
   end.
